@@ -403,9 +403,13 @@ def reduce_axis(eng, st, a, axis, op):
     if a.ndim != 2:
         raise OutOfSubset('axis reduction of a %d-D array' % a.ndim)
     n = a.shape[axis]
-    if not isinstance(n, int):
-        raise OutOfSubset('reduction along an axis of symbolic extent')
     other = a.shape[1 - axis]
+    if not isinstance(n, int):
+        if op not in ('min', 'max'):
+            raise OutOfSubset('reduction along an axis of symbolic extent')
+        eng.oblige('safe', 'reduce-nonempty', st, lt(0, n))
+        cell = (lambda i, k, a=a: a.at(i, k)) if axis == 1 else (lambda i, k, a=a: a.at(k, i))
+        return new_ref(st, ArrV((other,), extremum_rows(eng, st, cell, other, n, op), 'real'))
 
     def at(i, a=a):
         cells = [a.at(i, k) if axis == 1 else a.at(k, i) for k in range(n)]
@@ -424,6 +428,37 @@ def reduce_axis(eng, st, a, axis, op):
         return r
     dt = 'bool' if op in ('all', 'any') else ('int' if a.dtype in ('bool', 'int') else 'real')
     return new_ref(st, ArrV((other,), at, dt))
+
+
+EXT_RECORDS = []       # row-wise extremum reductions of the current verification task (reset by contract.verify_*)
+
+
+def extremum_rows(eng, st, cell, other, n, op):
+    """row-wise min / max of cell(i, k), 0 <= k < n, for every row 0 <= i < other (n symbolic, > 0): a fresh function m(i)
+    that bounds every cell of its row and is attained at some position of it"""
+    m = z3.Function(fresh_name('rowmin' if op == 'min' else 'rowmax'), z3.IntSort(), z3.RealSort())
+    w = z3.Function(fresh_name('argext'), z3.IntSort(), z3.IntSort())
+    i, j = z3.Int(fresh_name('xi')), z3.Int(fresh_name('xj'))
+
+    def define(fact):
+        calls.define_fact(eng, st, fact)
+    cij = to_z3(to_real(to_num(cell(i, j))))
+    bound = (m(i) <= cij) if op == 'min' else (cij <= m(i))
+    rng_i = z3.And(0 <= i, i < to_z3(other), 0 < to_z3(n))      # an empty row has no extremum: nothing is said about it
+    define(z3.ForAll([i, j], z3.Implies(z3.And(rng_i, 0 <= j, j < to_z3(n)), bound)))
+    ciw = to_z3(to_real(to_num(cell(i, w(i)))))
+    define(z3.ForAll([i], z3.Implies(rng_i, z3.And(0 <= w(i), w(i) < to_z3(n), m(i) == ciw)), patterns=[m(i)]))
+    # cross-instances of the bounding fact at the other reductions' attaining positions (instances of the facts above, nothing new):
+    # they let the solver see that two reductions over pointwise-equal cells agree
+    for r in EXT_RECORDS:
+        if r['op'] != op:
+            continue
+        for (ma, cella, na, oa), wb in (((m, cell, n, other), r['w']), ((r['m'], r['cell'], r['n'], r['other']), w)):
+            c = to_z3(to_real(to_num(cella(i, wb(i)))))
+            b = (ma(i) <= c) if op == 'min' else (c <= ma(i))
+            define(z3.ForAll([i], z3.Implies(z3.And(0 <= i, i < to_z3(oa), 0 <= wb(i), wb(i) < to_z3(na)), b), patterns=[z3.MultiPattern(ma(i), wb(i))]))
+    EXT_RECORDS.append(dict(op=op, m=m, w=w, cell=cell, n=n, other=other))
+    return lambda t, m=m: m(to_z3(t))
 
 
 def arr_method(eng, st, ref, o, name, args, kwargs):
@@ -852,3 +887,70 @@ def np_lstsq(eng, st, args, kwargs):
     cells = [z3.Real(fresh_name('lstsq')) for _ in range(a.shape[1])]
     sol = new_ref(st, ArrV((a.shape[1],), lambda i, cells=cells: eng.select(cells, i), 'real'))
     yield (sol, Obj('lstsq.residuals'), Obj('lstsq.rank'), Obj('lstsq.sv')), st
+
+
+_MED = [None]
+
+
+def MED():
+    if _MED[0] is None:
+        _MED[0] = z3.Function('MEDIAN', z3.ArraySort(z3.IntSort(), z3.RealSort()), z3.IntSort(), z3.RealSort())
+    return _MED[0]
+
+
+@lib('numpy.median')
+def np_median(eng, st, args, kwargs):
+    """median of a non-empty 1-D array: a function of the cell sequence that lies between two of its cells
+    (nothing else about its value is assumed); the empty case (nan + RuntimeWarning) is outside the subset"""
+    if kwargs or len(args) != 1:
+        raise OutOfSubset('np.median with axis / keywords')
+    a = arr_of(eng, st, args[0])
+    if a is None or a.ndim != 1:
+        raise OutOfSubset('np.median of a non 1-D value')
+    n = a.shape[0]
+    if isinstance(n, int):
+        if n == 0:
+            raise OutOfSubset('np.median of an empty array')
+        cells = [to_real(to_num(a.at(k))) for k in range(n)]
+        if all(concrete(c) is not None for c in cells):
+            import statistics
+            yield statistics.median([concrete(c) for c in cells]), st
+            return
+    eng.oblige('safe', 'median-nonempty', st, lt(0, n))
+    from . import sums
+    lam = sums.lam_of(a)
+    m = MED()(lam, to_z3(n))
+    lo, hi = z3.Int(fresh_name('medlo')), z3.Int(fresh_name('medhi'))
+    st.assume(and_(0 <= lo, lo < to_z3(n), 0 <= hi, hi < to_z3(n), to_z3(to_real(to_num(a.at(lo)))) <= m, m <= to_z3(to_real(to_num(a.at(hi))))))
+    eng.trusted_facts.add('np.median(a) is a function of the cell sequence and lies between two cells of a (library fact, not machine-checked)')
+    yield m, st
+
+
+@lib('numpy.unique')
+def np_unique(eng, st, args, kwargs):
+    """np.unique(a) of a 1-D real array: strictly increasing, same set of values (each output cell comes from an input cell and
+    each input cell occurs in the output); its length is between min(1, n) and n"""
+    if kwargs or len(args) != 1:
+        raise OutOfSubset('np.unique with keywords')
+    a = arr_of(eng, st, args[0])
+    if a is None or a.ndim != 1:
+        raise OutOfSubset('np.unique of a non 1-D value')
+    n = a.shape[0]
+    if isinstance(n, int) and all(concrete(a.at(k)) is not None for k in range(n)):
+        items = sorted(set(concrete(a.at(k)) for k in range(n)))
+        yield new_ref(st, ArrV((len(items),), lambda i, items=items: eng.select(items, i), a.dtype)), st
+        return
+    sort = z3.RealSort() if a.dtype == 'real' else z3.IntSort()
+    u = z3.Function(fresh_name('uniq'), z3.IntSort(), sort)
+    src = z3.Function(fresh_name('uniq.src'), z3.IntSort(), z3.IntSort())
+    pos = z3.Function(fresh_name('uniq.pos'), z3.IntSort(), z3.IntSort())
+    k = z3.Int(fresh_name('uniq.n'))
+    i, j = z3.Int(fresh_name('u')), z3.Int(fresh_name('v'))
+    nz = to_z3(n)
+    cell = lambda t: to_z3(to_num(a.at(t)))
+    st.assume(and_(0 <= k, k <= nz, z3.Implies(nz > 0, k > 0)))
+    st.assume(z3.ForAll([i, j], z3.Implies(z3.And(0 <= i, i < j, j < k), u(i) < u(j)), patterns=[z3.MultiPattern(u(i), u(j))]))
+    st.assume(z3.ForAll([i], z3.Implies(z3.And(0 <= i, i < k), z3.And(0 <= src(i), src(i) < nz, u(i) == cell(src(i)))), patterns=[u(i)]))
+    st.assume(z3.ForAll([j], z3.Implies(z3.And(0 <= j, j < nz), z3.And(0 <= pos(j), pos(j) < k, u(pos(j)) == cell(j))), patterns=[pos(j)]))
+    eng.trusted_facts.add('np.unique(a): strictly increasing array with the same set of values as a (library fact, conformance-tested)')
+    yield new_ref(st, ArrV((k,), lambda t, u=u: u(to_z3(t)), a.dtype)), st
